@@ -50,6 +50,8 @@ template <typename P> struct App<P, true> {
 
 template <typename I> void enterIfManual(I& f, std::true_type) { f.enter(); }
 template <typename I> void enterIfManual(I&, std::false_type) {}
+template <typename I> bool restartIfManual(I& f, std::true_type) { f.exit(); f.enter(); return true; }
+template <typename I> bool restartIfManual(I&, std::false_type) { return false; }
 
 template <typename M, bool HAS_PAYLOAD, bool MANUAL>
 std::string runCase(const std::vector<Op>& ops, hv::Stats& st, bool& nontrivial, int capacityExpected) {
@@ -90,7 +92,10 @@ std::string runCase(const std::vector<Op>& ops, hv::Stats& st, bool& nontrivial,
 			if (k != n0) return fail(i, "iteration with removal visited fewer tasks than the plan holds");
 			model[r] = keep; break; }
 		case 6: if (o.b < 90) { plan.clear(); total -= (int) model[r].size(); model[r].clear(); st.cls("plan_clear"); } break;
-		case 7: fsm.update(); break; // runs the library's own verifyPlans(); nobody succeeds, so no task may be executed
+		case 7: if (o.b >= 170 && restartIfManual(fsm, std::integral_constant<bool, MANUAL>{})) { // a restart wipes every plan and gives the whole task capacity back
+				for (int q = 0; q < NR; ++q) model[q].clear(); if (total > 0) st.cls("restart_with_tasks_stored"); total = 0; }
+			else fsm.update(); // runs the library's own verifyPlans(); nobody succeeds, so no task may be executed
+			break;
 		}
 		// every region's plan iterates exactly its own tasks, in insertion order, with the data they were given
 		for (int q = 0; q < NR; ++q) {
@@ -116,7 +121,7 @@ std::vector<Op> decodeOps(hv::Reader& r) { std::vector<Op> ops; while (r.more())
 static std::string hv_render(const hv::Bytes& c);
 static void hv_init(hv::Stats& st) {
 	st.rule = "case = (configuration of 3: capacity 5 / capacity 12 with int payloads / default capacity, op list over the 6 regions of a 14-state machine: append of any kind (cyclic, out-of-region destinations, payloads), "
-			  "remove-while-iterating by bit mask, clear, update() (runs the library's verifyPlans)); after every op all six plans are iterated and compared with per-region vectors; non-trivial = an append was refused at capacity and a task was removed from the middle of a plan.";
+			  "remove-while-iterating by bit mask, clear, update() (runs the library's verifyPlans), exit()+enter() under manual activation); after every op all six plans are iterated and compared with per-region vectors; non-trivial = an append was refused at capacity and a task was removed from the middle of a plan.";
 }
 static std::string hv_run(const hv::Bytes& c, hv::Stats& st) {
 	++st.evaluations; hv::Reader r(c);
